@@ -64,6 +64,9 @@ def k50(args):
         elif t == 8:
             model.add_data({objs[op[1]]: data_dict(op[2])})
             res.append([dump()])
+        elif t == 7:
+            model.reset_bounds()
+            res.append([dump()])
         elif t == 15:
             objs[op[1]].reset_bounds()
             res.append([dump()])
